@@ -75,3 +75,30 @@ Proof. vm_compute. repeat split; reflexivity. Qed.
 Theorem C06_every_accessor_presents_len_items :
   Forall (fun b => b = ExtrStorage.CBLen) ExtrStorage.accessor_bounds /\ ExtrStorage.iterators_step_every_column = true.
 Proof. split; [repeat constructor|reflexivity]. Qed.
+
+(* ---------------------------------------------------------------- the model refines the oracle, read-all included *)
+From Gecs Require Import Spec OracleSim.
+
+(** "Presents each live entity exactly once, paired with its own handle and components, and nothing else; the
+    number of items equals len()", as the specification oracle reads it on implementation traces: every read-all
+    observation (Archetype::iter, iter_mut, get_all_slices_mut, get_slice, borrow_slice with entities()) must be, as
+    a multiset of rows, exactly the oracle's record of the live entities with their latest values.  For ALL
+    histories of the core language (creations, destructions, to_direct, writes, len queries, probes and read-all
+    passes in any order, with any issued handle) the oracle accepts the whole run of the model. *)
+Theorem C06_the_model_refines_the_oracle_read_all_included : forall cfg d qs caps w ops,
+  wrapping cfg = false -> wf_decl d -> NoDup (da_id <$> wd_archs d) ->
+  length caps = length (wd_archs d) -> new_world (wd_archs d) caps = Ok w tt ->
+  forallb (l0_op d) ops = true ->
+  spec_check cfg d qs (ONew caps :: ops) (run cfg d qs (ONew caps :: ops)) = None.
+Proof. exact core_language_refines_the_oracle. Qed.
+
+Definition c06_core_decl : wdecl := WD [DA 0%N 0 [DC 0%N 0]; DA 3%N 1 [DC 0%N 0; DC 1%N 1]] [].
+Definition c06_core_ops : list op :=
+  [OCreate 1 5%N; OCreate 1 6%N; OCreate 1 7%N; OReadAll RIter 1; ODestroy (LArch 1) KEnt TAny (RIssued 0); OReadAll RSlices 1;
+   OWrite WView 1 KEnt TAny (RIssued 2) 1 9%N; OReadAll RIterMut 1; OReadAll RSlice 0; OCreate 1 8%N; OReadAll RBSlice 1].
+Example C06_core_language_instance :
+  forallb (l0_op c06_core_decl) c06_core_ops = true /\
+  spec_check (Config false false true) c06_core_decl [] (ONew [1; 1] :: c06_core_ops)
+             (run (Config false false true) c06_core_decl [] (ONew [1; 1] :: c06_core_ops)) = None /\
+  nth 6 (run (Config false false true) c06_core_decl [] (ONew [1; 1] :: c06_core_ops)) [] = [2; 515; 1; 448; 449; 259; 1; 384; 385]%N.
+Proof. vm_compute. repeat split; reflexivity. Qed.
